@@ -79,18 +79,57 @@ def check(plan) -> Result:
 
 
 def replay(plan) -> Result:
+    if plan and plan[0] == "history":
+        return check_history(plan)
     return check(plan)
+
+
+def check_history(plan) -> Result:
+    """The conversion is a pure function: its answer for an input must not depend on what was
+    converted before (in this process).  plan = ["history", [[family, value], ...]]."""
+    import bellows.types as t
+
+    seq = plan[1]
+    r = Result(nontrivial=len(seq) > 1, classes=["history"], key=["h", seq])
+    for family, v in seq:
+        sub = check([family, v, "ctor"])
+        for sig, d in sub.violations:
+            r.bad(sig + ":after-history", f"history {seq}: {d}")
+        try:
+            out = int(t.sl_Status.from_ember_status(_build(family, v, "ctor")))
+        except Exception:
+            continue  # already reported by check() above
+        first = _FIRST.setdefault((family, v), out)
+        if first != out:
+            r.bad(f"C18:answer-depends-on-history:{family}:0x{v:02X}", f"history {seq}: now 0x{out:X}, earlier 0x{first:X}")
+    return r
+
+
+_FIRST = {}
 
 
 def run(ctx):
     import bellows.types as t
 
-    for family in ("ember", "ezsp"):
-        for v in range(256):
-            for how in ("ctor", "bytes"):
-                plan = [family, v, how]
-                ctx.check(plan, check(plan))
+    # both family orders, twice: a conversion must not be influenced by earlier conversions
+    for order in (("ember", "ezsp"), ("ezsp", "ember"), ("ember", "ezsp")):
+        for family in order:
+            for v in range(256):
+                for how in ("ctor", "bytes"):
+                    plan = [family, v, how]
+                    res = check(plan)
+                    out = None
+                    try:
+                        out = int(t.sl_Status.from_ember_status(_build(family, v, how)))
+                    except Exception:
+                        pass
+                    first = _FIRST.setdefault((family, v), out)
+                    if first != out:
+                        res.bad(f"C18:answer-depends-on-history:{family}:0x{v:02X}", f"{plan}: now {out}, first time {first}")
+                    ctx.check(plan, res)
     ctx.exhaustive["8-bit families"] = True
+    hist = st.tuples(st.just("history"), st.lists(st.tuples(st.sampled_from(["ember", "ezsp"]), st.integers(0, 255)).map(list), min_size=2, max_size=8)).map(list)
+    ctx.search(hist, check_history, max_examples=300 if ctx.tier == "quick" else 20000)
     for m in t.sl_Status:
         for how in ("ctor", "bytes"):
             plan = ["sl", int(m), how]
